@@ -371,3 +371,66 @@ def r11h(ctx: Ctx) -> list[Ob]:
     if not out:
         out.append(unres("R11h", fq, "requires_grad", "no requires_grad= keyword found", f.loc))
     return out
+
+
+# ------------------------------------------------------------------------------------------ R11i
+def r11i(ctx: Ctx) -> list[Ob]:
+    """R11i -- a semiring's ``cast`` keeps the precision of floating-point values.
+
+    ``cast`` is applied to every input layer's output and to every einsum operand.  For a
+    floating-point tensor each semiring returns the tensor itself (real semirings) or converts it
+    with a dtype derived from *its own* dtype (``x.dtype.to_complex()``); only integer / bool tensors
+    go to ``torch.get_default_dtype()``.  A cast that sends every non-complex tensor to the global
+    default evaluates a float64 circuit in complex64 whenever the default dtype is float32 (the test
+    suite sets float64 as default, so it cannot see it)."""
+    import ast as _ast
+
+    from ..boolexpr import ALWAYS, NEVER, fires
+    from ..cfg import ENTRY, build_cfg
+
+    out: list[Ob] = []
+    base = ctx.repo.cls("cirkit.backend.torch.semiring.SemiringImpl")
+    for c in ctx.repo.subclasses(base):
+        m = c.methods.get("cast")
+        if m is None or m.is_abstract:
+            continue
+        g = build_cfg(m.node)
+        xname = [p.name for p in m.params if p.name not in ("cls", "self")][0]
+        env = {f"{xname}.is_floating_point()": True, f"{xname}.is_complex()": False}
+        seen = {ENTRY}
+        stack = [ENTRY]
+        rets = []
+        while stack:
+            a = stack.pop()
+            st = g.stmts.get(a)
+            if isinstance(st, _ast.Return):
+                rets.append(st)
+            for b, lab in g.succ.get(a, []):
+                if lab is not None and lab[0] is not None:
+                    v, _ = fires(lab[0], env)
+                    if (v == ALWAYS and lab[1] is False) or (v == NEVER and lab[1] is True):
+                        continue
+                if b not in seen:
+                    seen.add(b)
+                    stack.append(b)
+        ld = LocalDefs(m.node)
+        bad = None
+        for r in rets:
+            if r.value is None:
+                continue
+            txts = [unparse(e) for e in ld.expand(r.value)]
+            joined = " ".join(txts)
+            if unparse(r.value) == xname:
+                continue
+            if f"{xname}.dtype" in joined:
+                continue
+            if "get_default_dtype" in joined:
+                bad = r
+        inst = "cast:float-precision"
+        if bad is not None:
+            out.append(viol("R11i", c.qualname, inst, f"for a floating-point tensor cast returns `{unparse(bad.value)[:60]}` -- a dtype taken from torch.get_default_dtype(), not from the tensor: a circuit moved to float64 under a float32 default is evaluated at single precision (values beyond the float32 range overflow before the logarithm)", f"{m.module.relpath}:{bad.lineno}"))
+        elif rets:
+            out.append(ok("R11i", c.qualname, inst, "floating-point tensors keep their own precision", m.loc))
+        else:
+            out.append(unres("R11i", c.qualname, inst, "no return reachable for a floating-point tensor", m.loc))
+    return out
